@@ -92,7 +92,7 @@ func (n *SimNode) IsCompute() bool { return n.Roles&node.RoleComputeWorker != 0 
 func (s *Scenario) addRuntime(rng *rand.Rand, profile string) {
 	on := profile == "runtime"
 	if profile == "vrf" { // VRF beacon support: committee elections under VRF need the compute runtime
-		on = rng.IntN(5) != 0
+		on = rng.IntN(8) != 0
 	} else if !on {
 		on = rng.IntN(3) == 0
 	}
